@@ -27,6 +27,7 @@ impl<const BITS: usize, const LIMBS: usize> Uint<BITS, LIMBS> {
 //@ import basics is_zero
 }
 
+//@ include lib/lehmer_spec.rs
 //@ include lib/lehmer.rs
 
 // signed cofactor with implicit sign: magnitude t, negative iff neg
